@@ -193,7 +193,12 @@ def features(scn):
             renamed.add(old)
             renamed.add(new)
     ops = ' '.join(mut_tags(scn))
+    from evosim.props import c02
+    merged = c02._merged_initials({'project': {'apps': {'va': {'steps': [
+        {'evos': [{'mutations': [m for m in scn['muts']
+                                 if m['op'] != 'NewModel']}]}]}}}})
     return {
+        'merged_initials': merged,
         'has_rename_field': 'RenameField' in ops,
         'has_rename_model': 'RenameModel' in ops,
         'name_reuse': reuse,
